@@ -564,6 +564,17 @@ func (nw *netw) adversary(st *advState) (did []string, consume bool) {
 type advForged struct {
 	forged   map[int]bool
 	attacked map[uint64]bool
+	echoed   map[int]bool
+	// pk: instead of the listed powers the copy's redundant PubKeys list is rewritten (keys the Byzantine validator
+	// holds: two outside keys and its own); the later attack then signs a precommit with the planted key of every
+	// position.
+	pk bool
+}
+
+// plantedKey: the key the forged-relay-pk adversary plants at position i of a rewritten PubKeys list.
+func (w *world) plantedKey(i int) gcrypto.PubKey {
+	ks := []gcrypto.PubKey{w.keys[nKeysPool].Val.PubKey, w.keys[nKeysPool+1].Val.PubKey, w.keys[byzIdx].Val.PubKey}
+	return ks[i%len(ks)]
 }
 
 func (nw *netw) adversaryForged(st *advForged) (did []string, consume bool) {
@@ -578,16 +589,29 @@ func (nw *netw) adversaryForged(st *advForged) (did []string, consume bool) {
 			continue
 		}
 		m := nw.msgs[d.msg]
+		if st.pk && d.to == victim && st.attacked[m.h] {
+			// Once it has been shown the Byzantine block, the victim is cut off from that height's traffic.
+			d.done = true
+			return []string{fmt.Sprintf("adv: the victim is partitioned from height %d: %s %d/%d lost", m.h, m.kind, m.h, m.r)}, true
+		}
 		if m.kind == "ph" && d.to == victim && m.from >= 0 && !st.forged[m.id] {
 			st.forged[m.id] = true
 			f := m.ph
-			vals := append([]tmconsensus.Validator{}, f.Header.NextValidatorSet.Validators...)
-			for i := range vals {
-				if vals[i].PubKey.Equal(w.keys[byzIdx].Val.PubKey) {
-					vals[i].Power = 1_000_000_000
+			if st.pk {
+				pks := make([]gcrypto.PubKey, len(f.Header.NextValidatorSet.PubKeys))
+				for i := range pks {
+					pks[i] = w.plantedKey(i)
 				}
+				f.Header.NextValidatorSet.PubKeys = pks
+			} else {
+				vals := append([]tmconsensus.Validator{}, f.Header.NextValidatorSet.Validators...)
+				for i := range vals {
+					if vals[i].PubKey.Equal(w.keys[byzIdx].Val.PubKey) {
+						vals[i].Power = 1_000_000_000
+					}
+				}
+				f.Header.NextValidatorSet.Validators = vals
 			}
-			f.Header.NextValidatorSet.Validators = vals
 			r := v.call("HandleProposedHeader", func(ctx context.Context) string { return v.e.HandleProposedHeader(ctx, f).String() })
 			did = append(did, fmt.Sprintf("adv: copy of the proposal %d/%d %s with rewritten next validators to the victim first => %s", m.h, m.r, h8(m.ph.Header.Hash), r))
 			// ... and it votes for that block everywhere, so that the block does not depend on the victim's votes.
@@ -612,7 +636,7 @@ func (nw *netw) adversaryForged(st *advForged) (did []string, consume bool) {
 	// The victim's own proposal of a later height: the Byzantine validator at once proposes a block of its own to
 	// the victim and precommits it there, and supports the victim's block at the other two nodes.
 	for _, m := range nw.msgs {
-		if m.kind != "ph" || m.from != victim || m.h <= initialH || st.attacked[m.h] || w.idxOf(m.h, byzIdx) < 0 || v.curH != m.h {
+		if m.kind != "ph" || (m.from != victim && !st.pk) || m.h <= initialH || st.attacked[m.h] || w.idxOf(m.h, byzIdx) < 0 || v.curH != m.h {
 			continue
 		}
 		h, r := m.h, m.r
@@ -623,8 +647,20 @@ func (nw *netw) adversaryForged(st *advForged) (did []string, consume bool) {
 			r1 := v.call("HandleProposedHeader", func(ctx context.Context) string { return v.e.HandleProposedHeader(ctx, ph).String() })
 			synctest.Wait()
 			target := string(ph.Header.Hash)
+			sigs := []gcrypto.SparseSignature{w.voteSig('c', h, r, target, bi)}
+			if st.pk {
+				// its own signature filed under every validator's key id
+				sigs = nil
+				for i := range w.VS(h).Validators {
+					sg, err := w.signerFor(w.plantedKey(i)).Sign(context.Background(), w.voteContent('c', h, r, target))
+					if err != nil {
+						panic(err)
+					}
+					sigs = append(sigs, gcrypto.SparseSignature{KeyID: keyID(i), Sig: sg})
+				}
+			}
 			msg := tmconsensus.PrecommitSparseProof{Height: h, Round: r, PubKeyHash: pkh,
-				Proofs: map[string][]gcrypto.SparseSignature{target: {w.voteSig('c', h, r, target, bi)}}}
+				Proofs: map[string][]gcrypto.SparseSignature{target: sigs}}
 			r2 := v.call("HandlePrecommitProofs", func(ctx context.Context) string { return v.e.HandlePrecommitProofs(ctx, msg).String() })
 			did = append(did, fmt.Sprintf("adv: Byzantine proposal for %d/%d and its own precommit for it to the victim => %s, %s", h, r, r1, r2))
 		}
@@ -640,6 +676,34 @@ func (nw *netw) adversaryForged(st *advForged) (did []string, consume bool) {
 			n.call("HandlePrecommitProofs", func(ctx context.Context) string { return n.e.HandlePrecommitProofs(ctx, pc).String() })
 		}
 		did = append(did, "adv: Byzantine prevote and precommit for the victim's block to nodes 0 and 1")
+	}
+	// From the attacked height on the Byzantine validator echoes node 0's votes (same kind, round and target, nil
+	// included) to nodes 0 and 1, so that the rest of the network keeps deciding without the victim.
+	for _, m := range nw.msgs {
+		if (m.kind != "p" && m.kind != "c") || !st.attacked[m.h] || st.echoed[m.id] || len(m.sig.KeyID) != 2 {
+			continue
+		}
+		bi := w.idxOf(m.h, byzIdx)
+		if bi < 0 || int(m.sig.KeyID[0])<<8|int(m.sig.KeyID[1]) != w.idxOf(m.h, 0) {
+			continue
+		}
+		st.echoed[m.id] = true
+		pkh := string(w.VS(m.h).PubKeyHash)
+		proofs := map[string][]gcrypto.SparseSignature{m.target: {w.voteSig(m.kind[0], m.h, m.r, m.target, bi)}}
+		for _, n := range nw.nodes[:victim] {
+			if n.e == nil {
+				continue
+			}
+			n := n
+			if m.kind == "p" {
+				msg := tmconsensus.PrevoteSparseProof{Height: m.h, Round: m.r, PubKeyHash: pkh, Proofs: proofs}
+				n.call("HandlePrevoteProofs", func(ctx context.Context) string { return n.e.HandlePrevoteProofs(ctx, msg).String() })
+			} else {
+				msg := tmconsensus.PrecommitSparseProof{Height: m.h, Round: m.r, PubKeyHash: pkh, Proofs: proofs}
+				n.call("HandlePrecommitProofs", func(ctx context.Context) string { return n.e.HandlePrecommitProofs(ctx, msg).String() })
+			}
+		}
+		did = append(did, fmt.Sprintf("adv: Byzantine echo of node 0's %s %d/%d %s to nodes 0 and 1", m.kind, m.h, m.r, h8([]byte(m.target))))
 	}
 	return did, false
 }
@@ -752,8 +816,8 @@ func runNet(job vx.Job) (res vx.Result) {
 		adv = &advState{}
 	}
 	var advF *advForged
-	if job.Args["adversary"] == "forged-relay" {
-		advF = &advForged{forged: map[int]bool{}, attacked: map[uint64]bool{}}
+	if job.Args["adversary"] == "forged-relay" || job.Args["adversary"] == "forged-relay-pk" {
+		advF = &advForged{forged: map[int]bool{}, attacked: map[uint64]bool{}, echoed: map[int]bool{}, pk: job.Args["adversary"] == "forged-relay-pk"}
 	}
 	steps := 0
 	for ; steps < maxSteps; steps++ {
